@@ -253,10 +253,10 @@ __CPROVER_assigns()
     G = ("#include <math.h>\ntypedef double Filtration_value;\ndouble g_data[4]; unsigned g_dim[4];\n"
          "typedef struct { unsigned a[4]; size_t n; } vp_vec_u; vp_vec_u multipliers;   /* only so that the (replaced) body of get_dimension_of_a_cell compiles */\n")
     hdr = "size_t nondet_size(void); double nondet_double(void); unsigned nondet_uint(void);\n"
-    fill = "  for (int k = 0; k < 4; k++) { g_data[k] = nondet_double(); g_dim[k] = nondet_uint(); }\n"
+    fill = "  for (int k = 0; k < 4; k++) { g_data[k] = nondet_double(); g_dim[k] = nondet_uint(); __CPROVER_assume(g_dim[k] <= 4); }\n"
     U = []
     U.append(Unit("comparator.is_before", "C13", [fn_dim, fn_cmp], enforce="is_before", replace=["get_dimension_of_a_cell"],
-                  globals_=G, unwind=5, inputs=["in_a", "in_b"],
+                  globals_=G, unwind=5, inputs=["in_a", "in_b", "g_data", "g_dim"], replay=replay_cmp,
                   harness=hdr + "int main(void) {\n" + fill + "  size_t in_a = nondet_size(), in_b = nondet_size();\n  is_before(in_a, in_b);\n  __CPROVER_assert(0, \"VP_REACH\");\n  return 0;\n}\n",
                   desc="is_before_in_filtration: value first (never decreasing), then lower dimension first (faces first under monotone values), then position; all non-NaN doubles incl. infinities"))
     lemma = hdr + "int main(void) {\n" + fill + """  size_t a = nondet_size(), b = nondet_size(), c = nondet_size();
@@ -272,7 +272,7 @@ __CPROVER_assigns()
     fn_cmp2 = Fn(CC, fn_cmp.select, "is_before", "", within=fn_cmp.within, sig_subs=cmp_sig, subs=cmp_subs)
     fn_dim2 = Fn(B, fn_dim.select, "get_dimension_of_a_cell", fn_dim.contract, scopes=[CLS_B], sig_subs=SIG_SUBS, subs=vec_subs())
     U.append(Unit("comparator.strict_total_order", "C13", [fn_dim2, fn_cmp2], no_enforce=True, replace=["get_dimension_of_a_cell"],
-                  globals_=G, unwind=5, harness=lemma,
+                  globals_=G, unwind=5, harness=lemma, inputs=["a", "b", "c", "g_data", "g_dim"], replay=replay_cmp,
                   desc="lemma: the comparator is a strict total order on the cells (so any correct sort yields one sequence)"))
     return U
 
@@ -282,14 +282,47 @@ REPLAY_SRC = os.path.join(VERIF, "replay", "cubical.cpp")
 REPLAY_BIN = os.path.join(VERIF, "build", "replay_cubical")
 
 
-def replay_bin():
-    if not os.path.exists(REPLAY_BIN) or os.path.getmtime(REPLAY_BIN) < os.path.getmtime(REPLAY_SRC):
-        os.makedirs(os.path.dirname(REPLAY_BIN), exist_ok=True)
+_built = set()
+
+
+def replay_bin(src=None, out=None):
+    """the replay programs are rebuilt from /repo's current headers once per check run"""
+    src, out = src or REPLAY_SRC, out or REPLAY_BIN
+    if out not in _built:
+        os.makedirs(os.path.dirname(out), exist_ok=True)
         inc = ["-I/repo/src/Bitmap_cubical_complex/include", "-I/repo/src/common/include"]
-        rc, o, e, s = sh(["g++", "-std=c++17", "-O1", "-w"] + inc + [REPLAY_SRC, "-o", REPLAY_BIN], 300)
+        rc, o, e, s = sh(["g++", "-std=c++17", "-O1", "-w"] + inc + [src, "-o", out, "-ltbb"], 300)
         if rc != 0:
             raise RuntimeError("replay build failed: " + (o + e)[-1500:])
-    return REPLAY_BIN
+        _built.add(out)
+    return out
+
+
+def replay_cmp(unit, failure):
+    """comparator counterexample -> two real cells with those values / dimensions / relative position"""
+    i = failure["inputs"]
+
+    def idx(name):
+        v = i.get(name)
+        return int(str(v).rstrip("ulUL")) if v is not None else None
+    a, b = idx("in_a"), idx("in_b")
+    if a is None or b is None:
+        a, b = idx("a"), idx("b")
+    if a is None or b is None or a == b:
+        return {"reproduced": None, "detail": "cells not in the trace"}
+
+    def elem(arr, k):
+        v = i.get(f"{arr}[{k}l]")
+        if v is None and isinstance(i.get(arr), list):
+            v = i[arr][k]
+        return v
+    da, db, va, vb = elem("g_dim", a), elem("g_dim", b), elem("g_data", a), elem("g_data", b)
+    if None in (da, db, va, vb) or not str(va).startswith("bits:") or not str(vb).startswith("bits:"):
+        return {"reproduced": None, "detail": f"values not in the trace: {da} {db} {va} {vb}"}
+    cmd = [replay_bin(os.path.join(VERIF, "replay", "cubical_cmp.cpp"), os.path.join(VERIF, "build", "replay_cubical_cmp")),
+           str(da).rstrip("ulUL"), str(db).rstrip("ulUL"), va[5:], vb[5:], "1" if a < b else "0"]
+    rc, o, e, s = sh(cmd, 60)
+    return {"reproduced": True if rc == 1 else (False if rc == 0 else None), "cmd": " ".join(cmd), "detail": (o + e).strip()[-500:], "rc": rc}
 
 
 def mk_replay(shape, mask, what):
